@@ -1701,10 +1701,10 @@ int ov_pcm_seek(OggVorbis_File *vf,ogg_int64_t pos){
 
       /* remove the packet from packet queue and track its granulepos */
       ogg_stream_packetout(&vf->os,NULL);
-      vorbis_synthesis_trackonly(&vf->vb,&op);  /* set up a vb with
-                                                   only tracking, no
-                                                   pcm_decode */
-      vorbis_synthesis_blockin(&vf->vd,&vf->vb);
+      if(!vorbis_synthesis_trackonly(&vf->vb,&op)) /* set up a vb with
+                                                      only tracking, no
+                                                      pcm_decode */
+        vorbis_synthesis_blockin(&vf->vd,&vf->vb);
 
       /* end of logical stream case is hard, especially with exact
          length positioning. */
